@@ -97,24 +97,41 @@ func (c *Case) goEpilogue(v Variant) string {
 	for _, k := range c.NestInput {
 		inner = append(inner, fmt.Sprint(k))
 	}
-	sb.WriteString("var vhInner = []int{" + strings.Join(inner, ", ") + "}\nvar vhDepth int\n")
-	nestCall := "PushContex()\n\tParserInit()\n\tfunc() {\n\t\tdefer func() { recover() }()\n\t\tParser(\"inner\")\n\t}()\n\tPopContex()"
+	inner2 := []string{}
+	for _, k := range c.NestInput2 {
+		inner2 = append(inner2, fmt.Sprint(k))
+	}
+	sb.WriteString("var vhInner = []int{" + strings.Join(inner, ", ") + "}\nvar vhInner2 = []int{" + strings.Join(inner2, ", ") + "}\nvar vhDepth int\n")
+	nestCall := "PushContex()\n\tParserInit()\n\tfunc() {\n\t\tdefer func() {\n\t\t\tif r := recover(); r != nil {\n\t\t\t\tres = \"rejected\"\n\t\t\t}\n\t\t}()\n\t\tif v := Parser(vhInnerName()); v != nil {\n\t\t\tres = \"accepted \" + vhShow(v)\n\t\t}\n\t}()\n\tPopContex()"
 	if v.Object {
-		nestCall = "func() {\n\t\tdefer func() { recover() }()\n\t\tMakeParserContext().Parser(\"inner\")\n\t}()"
+		nestCall = "func() {\n\t\tdefer func() {\n\t\t\tif r := recover(); r != nil {\n\t\t\t\tres = \"rejected\"\n\t\t\t}\n\t\t}()\n\t\tif v := MakeParserContext().Parser(vhInnerName()); v != nil {\n\t\t\tres = \"accepted \" + vhShow(v)\n\t\t}\n\t}()"
 	}
 	sb.WriteString(`
+func vhInnerName() string {
+	if vhDepth >= 2 {
+		return "inner2"
+	}
+	return "inner"
+}
+
 // vhNest: a nested parse started from inside a semantic action (what PushContex/PopContex are for).
 // Its own events are not logged and its output is bracketed so that the harness can cut it out: the outer
 // parse must look as if nothing happened.
 func vhNest() {
-	if vhDepth > 0 {
+	if vhDepth >= 2 { // the inner parse may itself nest once more (depth 2), not deeper
 		return
 	}
 	vhDepth++
 	saveRed := vhRed
-	fmt.Printf("NESTBEGIN\n") // whatever the inner parse prints (its trace, if IsTrace is on) is cut out by the harness
+	res := "nil"
+	if vhDepth == 1 {
+		fmt.Printf("NESTBEGIN\n") // whatever the inner parses print (their trace, if IsTrace is on) is cut out by the harness
+	}
 	` + nestCall + `
-	fmt.Printf("\nNESTEND\n")
+	if vhDepth == 1 {
+		// the outcome of the nested parse is part of what the outer run shows
+		fmt.Printf("\nNESTEND\nNESTRESULT %s\n", res)
+	}
 	vhRed = saveRed
 	vhDepth--
 }
@@ -135,11 +152,15 @@ func vhLogR(i int) {
 func GetToken(input string, val *ValType, pos *int) int {
 	p := *pos
 	*pos = p + 1
-	if input == "inner" {
-		if p >= len(vhInner) {
+	if input == "inner" || input == "inner2" {
+		toks := vhInner
+		if input == "inner2" {
+			toks = vhInner2
+		}
+		if p >= len(toks) {
 			return -1
 		}
-		return vhCodes[vhInner[p]]
+		return vhCodes[toks[p]]
 	}
 	if p >= len(vhToks) {
 		fmt.Printf("T %d -1\n", p)
@@ -311,13 +332,30 @@ func Valuate(c *Case, r *rand.Rand, valued bool) {
 	if len(c.Rules) > 0 && r.Intn(4) == 0 {
 		// one rule's action starts a nested parse (Go variants)
 		c.NestRule = 1 + r.Intn(len(c.Rules))
-		if s := randomSentence(c, r, 3); s != nil && len(s) <= 12 {
+		// prefer an inner input whose own derivation uses the nesting rule (so that the inner parse nests again)
+		var s []string
+		if cov := coverSentencesByRule(c, r); cov[c.NestRule-1] != nil && len(cov[c.NestRule-1]) <= 14 && r.Intn(3) != 0 {
+			s = cov[c.NestRule-1]
+		} else {
+			s = randomSentence(c, r, 3)
+		}
+		if s != nil && len(s) <= 14 {
 			ord := map[string]int{}
 			for i, t := range c.Terminals() {
 				ord[t] = i + 1
 			}
 			for _, x := range s {
 				c.NestInput = append(c.NestInput, ord[x])
+			}
+		}
+		// the innermost input: another sentence (any), usually of a different length
+		if s2 := randomSentence(c, r, 4); s2 != nil && len(s2) <= 14 {
+			ord := map[string]int{}
+			for i, t := range c.Terminals() {
+				ord[t] = i + 1
+			}
+			for _, x := range s2 {
+				c.NestInput2 = append(c.NestInput2, ord[x])
 			}
 		}
 		if r.Intn(3) == 0 && len(c.Terminals()) > 0 { // sometimes the inner input is not a sentence
